@@ -182,6 +182,13 @@ def main(argv=None):
     ap.add_argument("-v", "--verbose", action="store_true")
     args = ap.parse_args(argv)
     from pyvc import report
+    if args.prop == "C01" and not args.replay:
+        from pyvc import c01
+        try:
+            return c01.main(args)
+        except Exception:
+            traceback.print_exc()
+            return EXIT_CRASH
     try:
         if args.replay:
             return report.do_replay(args)
